@@ -150,6 +150,15 @@ pub fn sign<S: MlDsa>(seed: u64, nfull: usize, nfactor: usize, allctx: bool, out
         let _ = S::sign(&sk_rt, &mut ScriptRng::new(&p.arr32()), b"other", b"", "pure");
         let b = S::sign(&sk_rt.clone(), &mut ScriptRng::new(&rnd), &m, b"ctx", MODES[i as usize % 4]).unwrap();
         out.ev(json!({"ev": "Same", "what": "sign repeated after other operations, on a round-tripped clone", "a": hexs(&a), "b": hexs(&b)}));
+        // ... and IMMEDIATELY again with the same randomness (the deterministic variant, a replayed or stuck generator):
+        // Algorithm 2 is a function of its inputs, whatever the previous call was
+        let r = guarded(|| (S::sign(&sk0, &mut ScriptRng::new(&rnd), &m, b"ctx", MODES[i as usize % 4]).unwrap_or_default(),
+                            S::sign(&sk0, &mut ScriptRng::new(&rnd), &m, b"ctx", MODES[i as usize % 4]).unwrap_or_default()));
+        match r {
+            Ok((c, d)) => { out.ev(json!({"ev": "Same", "what": "sign called twice in a row with the same randomness", "a": hexs(&a), "b": hexs(&c)}));
+                            out.ev(json!({"ev": "Same", "what": "sign called twice in a row with the same randomness (second call)", "a": hexs(&a), "b": hexs(&d)})); }
+            Err((loc, msg)) => out.ev(json!({"ev": "Panic", "call": "sign", "loc": loc, "msg": msg})),
+        }
     }
 }
 
